@@ -177,10 +177,11 @@ class Backfilling(TMGRSchedulingComponent):
                     continue
 
                 if uid not in info['tasks']:
-                    # this contradicts the task's assignment
+                    # the task was not assigned by this scheduler (early
+                    # bound tasks name their pilot and bypass `_work()`), so
+                    # it does not count toward this pilot's usage
                     self._log.debug('upd task  %s not in tasks', uid)
-                    self._log.error('bf: task %s on %s inconsistent', uid, pid)
-                    raise RuntimeError('inconsistent scheduler state')
+                    continue
 
                 # this task is now considered done
                 info['done'].append(uid)
